@@ -846,3 +846,565 @@ FUNCS = {
     '_minmax.__getitem__': {
         'setup': mm_setup, 'scenarios': {'minmax': {}},
         'on_outcomes': mm_outcomes, 'config': {'unroll': 8}}}
+
+
+# ------------------------------------------------ _minmax.__init__(op, *s)
+# The constructor behind max(...) / min(...).  Documented (modeling.rst,
+# "Maximum" / "Minimum"): the arguments of max can be numbers, dense 'd'
+# column matrices, variables, affine functions or CONVEX piecewise-linear
+# functions (min: CONCAVE), each of length len(f) or 1; the result is convex
+# (concave).  Property C11: "combinations that are not convex or concave, or
+# whose dimensions do not match, are refused with an exception instead of
+# producing a function, and a function accepted as convex really is".
+#
+# Contract, for an argument list of any length (the loop over the arguments
+# is executed for one arbitrary argument of symbolic kind -- number, matrix,
+# variable, function with symbolic curvature flags -- with the running
+# constant and the running length havoced):
+#   * a function argument is taken into _flist (as a copy) only if it is
+#     convex for 'max' resp. concave for 'min'; otherwise TypeError
+#   * a variable is taken as a copy; a number / column matrix goes into the
+#     running constant; anything else: TypeError
+#   * lengths: an argument of length other than 1 or the running length
+#     (when that is not 1) is refused with ValueError
+# and the same curvature rule for the single-argument form.
+class MArg:
+    """one argument of max / min, of symbolic kind"""
+    abs_object = True
+    KINDS = ('number', 'matrix', 'variable', 'function', 'other')
+
+    def __init__(self, tag):
+        self.tag = tag
+        self.kind = z3.Int('kind of ' + tag)
+        self.convex = z3.Bool(tag + ' is convex')
+        self.concave = z3.Bool(tag + ' is concave')
+        self.ln = z3.Int('len(' + tag + ')')
+        self.cols = z3.Int('columns of ' + tag)
+
+    def is_(self, k):
+        return self.kind == self.KINDS.index(k)
+
+    def abs_method(self, ex, st, name, args, kwargs, n):
+        if name in ('_isconvex', '_isconcave'):
+            # only functions have these methods
+            d = ex.decide(st, self.is_('function'))
+            if d is None:
+                raise NeedFork(self.is_('function'))
+            if not d:
+                raise PyRaise('AttributeError', name)
+            return B(self.convex if name == '_isconvex' else self.concave)
+        raise Unsupported('method %s of an argument' % name)
+
+    def abs_unop(self, ex, st, op, n):
+        if isinstance(op, ast.UAdd):
+            c = MCopy(self)
+            return c
+        raise Unsupported('unary operation on an argument')
+
+    def abs_getattr(self, ex, st, attr, n):
+        if attr == 'size':
+            return (I(self.ln), I(self.cols))
+        return core.NOTFOUND
+
+
+class MCopy:
+    abs_object = True
+
+    def __init__(self, of):
+        self.of = of
+
+
+class MType:
+    abs_object = True
+
+    def __init__(self, a):
+        self.a = a
+
+    def abs_is(self, ex, st, o):
+        a = self.a
+        if o is int or o is float or (isinstance(o, Ext) and o.name in (
+                'builtins.int', 'builtins.float')):
+            # int and float together are the kind 'number'; which of the two
+            # is a free boolean per test
+            nm = 'int' if (o is int or getattr(o, 'name', '') ==
+                           'builtins.int') else 'float'
+            return z3.And(a.is_('number'), z3.Bool('%s is %s' % (a.tag, nm)))
+        if isinstance(o, Ext) and o.name == 'cvxopt.modeling.variable':
+            return a.is_('variable')
+        if isinstance(o, Ext) and o.name == 'cvxopt.modeling._function':
+            return a.is_('function')
+        raise Unsupported('type test against %r' % (o,))
+
+    abs_eq = abs_is
+
+
+class MSeq:
+    """the arguments s of _minmax(op, *s), two or more"""
+    abs_object = True
+
+    def __init__(self, n):
+        self.n = n
+
+    def abs_loop(self, ex, st, s, fid):
+        sink = st.ghost['sink']
+        a = MArg('argument')
+        b = st.copy()
+        fr = b.frames[fid]
+        # the running constant is None or a matrix, the running length >= 1
+        lg = z3.Int('running length')
+        b.pc += [lg >= 1, a.ln >= 1, a.kind >= 0, a.kind <= 4,
+                 z3.Implies(a.is_('number'), a.ln == 1),
+                 z3.Implies(a.is_('number'), z3.Or(z3.Bool(
+                     'argument is int'), z3.Bool('argument is float'))),
+                 z3.Not(z3.And(z3.Bool('argument is int'),
+                               z3.Bool('argument is float')))]
+        fr['lg'] = I(lg)
+        hascnst = z3.Bool('a constant was seen before')
+        fr['cnst'] = MCnst(hascnst)
+        b.ghost['flist_added'] = ()
+        ex.assign(b, fid, s.target, a, s)
+        ismax = st.ghost['ismax']
+        for o in ex.exec_block(s.body, b, fid):
+            added = o.st.ghost.get('flist_added', ())
+            if o.kind == 'raise':
+                exc = o.val[0]
+                fits = z3.Or(a.is_('number'),
+                             z3.And(a.is_('matrix'), a.cols == 1),
+                             a.is_('variable'),
+                             z3.And(a.is_('function'), z3.If(
+                                 ismax, a.convex, a.concave)))
+                oklen = z3.Or(a.ln == 1, lg == 1, a.ln == lg)
+                sink.append(('minmax-refuses', list(o.st.pc), z3.Or(
+                    z3.And(z3.BoolVal(exc == 'TypeError'), z3.Not(fits)),
+                    z3.And(z3.BoolVal(exc == 'ValueError'), z3.Not(oklen))),
+                    'an argument of max / min is refused only with TypeError '
+                    'for an unsupported kind or curvature, or with '
+                    'ValueError for a length that does not fit (%s)' % exc,
+                    o.val[2] if len(o.val) > 2 else s.lineno))
+                continue
+            if o.kind not in ('fall', 'continue'):
+                raise Unsupported('early exit from the loop over the '
+                                  'arguments')
+            took = len(added) == 1 and isinstance(added[0], MCopy) and \
+                added[0].of is a
+            sink.append(('minmax-accepts', list(o.st.pc), z3.And(
+                z3.Or(z3.BoolVal(took), z3.BoolVal(len(added) == 0)),
+                z3.Implies(z3.BoolVal(took), z3.Or(
+                    a.is_('variable'), z3.And(a.is_('function'), z3.If(
+                        ismax, a.convex, a.concave)))),
+                z3.Implies(z3.BoolVal(len(added) == 0), z3.Or(
+                    a.is_('number'), z3.And(a.is_('matrix'), a.cols == 1))),
+                z3.Or(a.ln == 1, lg == 1, a.ln == lg)),
+                'an argument is accepted only if it is a number, a column '
+                'matrix, a variable, or a function that is convex for max '
+                'resp. concave for min -- and only with a length that fits; '
+                'a variable or function is taken into the list as a copy',
+                s.lineno))
+        e = st.copy()
+        e.frames[fid]['cnst'] = MCnst(z3.Bool('a constant was seen'))
+        e.frames[fid]['lg'] = I(z3.Int('final length'))
+        return [Outcome('fall', e)]
+
+
+class MCnst:
+    """the running constant: None or a matrix"""
+    abs_object = True
+
+    def __init__(self, present):
+        self.present = present
+
+    def abs_is(self, ex, st, o):
+        if o is None:
+            return z3.Not(self.present)
+        raise Unsupported('identity test of the running constant')
+
+
+class MFList:
+    abs_object = True
+
+    def abs_inplace(self, ex, st, op, b, n):
+        if isinstance(b, Ref) and st.heap[b.oid].kind == 'list' and \
+                'items' in st.heap[b.oid].f:
+            st.ghost['flist_added'] = st.ghost.get('flist_added', ()) + \
+                tuple(st.heap[b.oid].f['items'])
+            return self
+        raise Unsupported('extending _flist with %r' % (b,))
+
+
+class MSelf:
+    abs_object = True
+
+    def abs_getattr(self, ex, st, attr, n):
+        at = st.ghost.get('mattrs', {})
+        return at.get(attr, core.NOTFOUND)
+
+
+def minmax_init_obligations(timeout_ms=10000):
+    tree, src = driver.load_module('modeling.py')
+    obs, sink = [], []
+
+    def add(oid, kind, status, text, line=0, detail=None):
+        obs.append({'site': None, 'id': 'modeling.py:_minmax.__init__:%s:%s'
+                    % (kind, oid), 'kind': kind, 'status': status,
+                    'text': text, 'line': line, 'model': None,
+                    'detail': detail,
+                    'by': ['z3'] if status == 'proved' else []})
+    saved = {k_: L.ext.get(k_) for k_ in (
+        'builtins.len', 'builtins.type', 'cvxopt.modeling.matrix',
+        'cvxopt.modeling._isdmatrix', 'cvxopt.modeling._vecmax',
+        'cvxopt.modeling._vecmin', 'cvxopt.modeling._function')}
+    saved_setattr = L.setattr
+    len0, type0 = saved['builtins.len'], saved['builtins.type']
+
+    def setattr_(ex, st, base, attr, v, s):
+        if isinstance(base, MSelf):
+            st.ghost['mattrs'] = dict(st.ghost.get('mattrs', {}))
+            if attr == '_flist':
+                v = MFList()
+            st.ghost['mattrs'][attr] = v
+            return
+        return saved_setattr(ex, st, base, attr, v, s)
+
+    def b_len(ex_, st, args, kwargs, n):
+        v = args[0]
+        if isinstance(v, MSeq):
+            return I(v.n)
+        if isinstance(v, MArg):
+            return I(v.ln)
+        if isinstance(v, tuple):
+            return len(v)
+        return len0(ex_, st, args, kwargs, n)
+
+    def b_type(ex_, st, args, kwargs, n):
+        if len(args) == 1 and isinstance(args[0], MArg):
+            return MType(args[0])
+        return type0(ex_, st, args, kwargs, n)
+
+    def m_matrix(ex_, st, args, kwargs, n):
+        if args and isinstance(args[0], MArg):
+            # matrix(number, tc='d'): a 1 x 1 matrix
+            a = args[0]
+            m = MArg('argument as matrix')
+            st.pc += [m.is_('matrix'), m.ln == 1, m.cols == 1]
+            return m
+        raise Unsupported('matrix(%r)' % (args,))
+
+    def isd(ex_, st, args, kwargs, n):
+        if isinstance(args[0], MArg):
+            return B(args[0].is_('matrix'))
+        return False
+
+    def vec(ex_, st, args, kwargs, n):
+        return MCnst(z3.BoolVal(True))
+
+    def new_fn(ex_, st, args, kwargs, n):
+        return Unknown('_function()')
+
+    def run(op_name, single):
+        ex = core.Executor(tree, 'cvxopt.modeling', L, {'unroll': 8})
+
+        def setup(ex_, st, fid, f_):
+            L.ext.update({'builtins.len': b_len, 'builtins.type': b_type,
+                          'cvxopt.modeling.matrix': m_matrix,
+                          'cvxopt.modeling._isdmatrix': isd,
+                          'cvxopt.modeling._vecmax': vec,
+                          'cvxopt.modeling._vecmin': vec,
+                          'cvxopt.modeling._function': new_fn})
+            L.setattr = setattr_
+            fr = st.frames[fid]
+            fr['self'] = MSelf()
+            fr['op'] = op_name
+            ismax = z3.BoolVal(op_name == 'max')
+            if single:
+                a = MArg('the argument')
+                # "f = max(s) ... The argument can be a variable or a
+                # function" (docstring of max)
+                st.pc += [z3.Or(a.is_('variable'), a.is_('function')),
+                          a.ln >= 1]
+                fr['s'] = (a,)
+                st.ghost['single'] = a
+            else:
+                n_ = z3.Int('number of arguments')
+                st.pc.append(n_ >= 2)
+                fr['s'] = MSeq(n_)
+            fr['variable'] = Ext('cvxopt.modeling.variable')
+            fr['_function'] = Ext('cvxopt.modeling._function')
+            fr['matrix'] = Ext('cvxopt.modeling.matrix')
+            st.ghost.update({'sink': sink, 'ismax': ismax,
+                             'frame_check': False})
+        ex.find_function('_minmax.__init__')
+        outs = ex.run_function('_minmax.__init__', setup)
+        if single:
+            for o in outs:
+                a = o.st.ghost['single']
+                ismax = o.st.ghost['ismax']
+                fits = z3.Or(a.is_('variable'), z3.And(
+                    a.is_('function'), z3.If(ismax, a.convex, a.concave)))
+                if o.kind == 'raise':
+                    sink.append(('minmax-refuses', list(o.st.pc), z3.And(
+                        z3.BoolVal(o.val[0] == 'TypeError'), z3.Not(fits)),
+                        'the single-argument form is refused only with '
+                        'TypeError for an argument that is not a variable or '
+                        'a function of the right curvature (%s)' % o.val[0],
+                        o.val[2] if len(o.val) > 2 else 0))
+                else:
+                    sink.append(('minmax-accepts', list(o.st.pc), fits,
+                                 'the single-argument form accepts a '
+                                 'variable, or a function that is convex '
+                                 'for max resp. concave for min', 0))
+        return ex
+    try:
+        try:
+            for op_name in ('max', 'min'):
+                ex = run(op_name, False)
+                ex = run(op_name, True)
+        except Unsupported as e:
+            add('supported', 'minmax-accepts', 'undecided', '_minmax.__init__ '
+                'is inside the supported subset', detail=str(e))
+            return obs
+    finally:
+        for k_, v_ in saved.items():
+            if v_ is None:
+                L.ext.pop(k_, None)
+            else:
+                L.ext[k_] = v_
+        L.setattr = saved_setattr
+    seen = {}
+    rank = {'proved': 0, 'undecided': 1, 'refuted': 2}
+    for kind, pc, goal, text, line in sink:
+        r = ex.check(pc, [z3.Not(goal)], timeout=timeout_ms)
+        st_ = 'proved' if r == z3.unsat else ('refuted' if r == z3.sat
+                                              else 'undecided')
+        key = (kind, text)
+        if key not in seen or rank[st_] > rank[seen[key][0]]:
+            seen[key] = (st_, line)
+    for i_, ((kind, text), (st_, line)) in enumerate(sorted(seen.items())):
+        add('%s#%d' % (kind, i_), kind, st_, text, line)
+    return obs
+
+
+# ------------------------------------------------------ max(*s) / min(*s)
+# Documented (docstring): "f = max(s) with s a list or tuple of variables,
+# functions, constants, returns f = max(*s)"; otherwise the arguments are
+# handed to _minmax('max', *s), which refuses unsupported kinds, curvatures
+# and incompatible lengths (contract above).  Property C11: combinations
+# whose dimensions do not match or that are not convex / concave "are refused
+# with an exception instead of producing a function".
+# Contract (scenario: at least one argument is a variable or a function, so
+# the built-in max raises NotImplementedError -- their comparison operators
+# do):
+#   * if _minmax accepts the arguments, the result is a new function whose
+#     only nonlinear term is that max (convex list) / min (concave list);
+#   * if _minmax refuses them, max(*s) returns max(*s[0]) only when s is a
+#     single list or tuple, and raises otherwise -- it never returns a
+#     function built from a part of the arguments.
+class TArg:
+    abs_object = True
+
+    def __init__(self, tag):
+        self.tag = tag
+        self.islist = z3.Bool(tag + ' is a list')
+        self.istuple = z3.Bool(tag + ' is a tuple')
+
+    abs_star = True
+
+
+class TType:
+    abs_object = True
+
+    def __init__(self, a):
+        self.a = a
+
+    def abs_is(self, ex, st, o):
+        if o is list or (isinstance(o, Ext) and o.name == 'builtins.list'):
+            return self.a.islist
+        if o is tuple or (isinstance(o, Ext) and o.name == 'builtins.tuple'):
+            return self.a.istuple
+        return z3.Bool('%s is %r' % (self.a.tag, getattr(o, 'name', o)))
+
+    abs_eq = abs_is
+
+    def abs_contains_in(self, ex, st, seq):
+        return None
+
+
+class MMBuilt:
+    abs_object = True
+
+    def __init__(self, name, args):
+        self.name, self.args = name, args
+
+
+class Recur:
+    abs_object = True
+
+    def __init__(self, fn, arg):
+        self.fn, self.arg = fn, arg
+
+
+class FRes:
+    abs_object = True
+
+    def abs_getattr(self, ex, st, attr, n):
+        return st.ghost.get('fres', {}).get(attr, core.NOTFOUND)
+
+
+def maxmin_obligations(timeout_ms=10000):
+    tree, src = driver.load_module('modeling.py')
+    obs, sink = [], []
+
+    def add(oid, kind, status, text, line=0, detail=None):
+        obs.append({'id': 'modeling.py:max/min:%s:%s' % (kind, oid),
+                    'kind': kind, 'status': status, 'text': text,
+                    'line': line, 'model': None, 'detail': detail,
+                    'by': ['z3'] if status == 'proved' else []})
+    names = ['builtins.max', 'builtins.min', 'builtins.type',
+             'builtins.isinstance', 'cvxopt.modeling._minmax',
+             'cvxopt.modeling._function', 'cvxopt.modeling.max',
+             'cvxopt.modeling.min']
+    saved = {k_: L.ext.get(k_) for k_ in names}
+    saved_setattr = L.setattr
+    type0 = saved['builtins.type']
+    isinst0 = saved['builtins.isinstance']
+
+    def setattr_(ex, st, base, attr, v, s):
+        if isinstance(base, FRes):
+            st.ghost['fres'] = dict(st.ghost.get('fres', {}))
+            st.ghost['fres'][attr] = v
+            return
+        return saved_setattr(ex, st, base, attr, v, s)
+
+    def run(fname, nargs):
+        ex = core.Executor(tree, 'cvxopt.modeling', L, {'unroll': 8})
+        accepted = z3.Bool('_minmax accepts the arguments')
+
+        def b_builtin(ex_, st, args, kwargs, n):
+            raise PyRaise('NotImplementedError', 'comparison of modeling '
+                          'objects')
+
+        def mk_mm(ex_, st, args, kwargs, n):
+            d = ex_.decide(st, accepted)
+            if d is None:
+                raise NeedFork(accepted)
+            if not d:
+                raise PyRaise('TypeError', 'unsupported argument type')
+            return MMBuilt(const_of(args[0])[1], tuple(args[1:]))
+
+        def new_fn(ex_, st, args, kwargs, n):
+            f = FRes()
+            st.ghost['fobj'] = f
+            return f
+
+        def recur(which):
+            def h(ex_, st, args, kwargs, n):
+                return Recur(which, tuple(args))
+            return h
+
+        def b_type(ex_, st, args, kwargs, n):
+            if len(args) == 1 and isinstance(args[0], TArg):
+                return TType(args[0])
+            return type0(ex_, st, args, kwargs, n)
+
+        def b_isinstance(ex_, st, args, kwargs, n):
+            if len(args) == 2 and isinstance(args[0], TArg):
+                cl = args[1] if isinstance(args[1], tuple) else (args[1],)
+                ts = []
+                for c in cl:
+                    if c is list or (isinstance(c, Ext) and c.name ==
+                                     'builtins.list'):
+                        ts.append(args[0].islist)
+                    elif c is tuple or (isinstance(c, Ext) and c.name ==
+                                        'builtins.tuple'):
+                        ts.append(args[0].istuple)
+                    else:
+                        ts.append(z3.Bool('%s is a %r' % (args[0].tag, c)))
+                return B(z3.Or(ts))
+            return isinst0(ex_, st, args, kwargs, n)
+
+        def setup(ex_, st, fid, f_):
+            L.ext.update({'builtins.max': b_builtin,
+                          'builtins.min': b_builtin,
+                          'builtins.type': b_type,
+                          'builtins.isinstance': b_isinstance,
+                          'cvxopt.modeling._minmax': mk_mm,
+                          'cvxopt.modeling._function': new_fn,
+                          'cvxopt.modeling.max': recur('max'),
+                          'cvxopt.modeling.min': recur('min')})
+            L.setattr = setattr_
+            fr = st.frames[fid]
+            args = tuple(TArg('argument %d' % i) for i in range(nargs))
+            for a in args:
+                st.pc.append(z3.Not(z3.And(a.islist, a.istuple)))
+            fr['s'] = args
+            st.ghost.update({'args': args, 'frame_check': False})
+            fr['builtins'] = Ext('builtins')
+        ex.find_function(fname)
+        outs = ex.run_function(fname, setup)
+        for o in outs:
+            st = o.st
+            args = st.ghost['args']
+            single_seq = z3.And(z3.BoolVal(nargs == 1),
+                                z3.Or(args[0].islist, args[0].istuple))
+            if o.kind == 'raise':
+                sink.append(('max-refuses', list(st.pc), z3.And(
+                    z3.Not(accepted), z3.BoolVal(o.val[0] in (
+                        'NotImplementedError', 'TypeError', 'ValueError'))),
+                    '%s(...) raises only if _minmax refuses the arguments '
+                    '(%s)' % (fname, o.val[0]),
+                    o.val[2] if len(o.val) > 2 else 0))
+                continue
+            v = o.val
+            if isinstance(v, Recur):
+                ok = v.fn == fname and len(v.arg) == 1 and \
+                    v.arg[0] is args[0]
+                sink.append(('max-refuses', list(st.pc), z3.And(
+                    z3.BoolVal(ok), z3.Not(accepted), single_seq),
+                    '%s(*s) falls back to %s(*s[0]) only when _minmax '
+                    'refuses s and s is a single list or tuple: refused '
+                    'arguments never yield a function built from a part of '
+                    'them' % (fname, fname), 0))
+                continue
+            fr_ = st.ghost.get('fres', {})
+            key = '_cvxterms' if fname == 'max' else '_ccvterms'
+            term = fr_.get(key)
+            items = st.heap[term.oid].f.get('items') if isinstance(
+                term, Ref) and st.heap[term.oid].kind == 'list' else None
+            ok = v is st.ghost.get('fobj') and items is not None and \
+                len(items) == 1 and isinstance(items[0], MMBuilt) and \
+                items[0].name == fname and items[0].args == args and \
+                set(fr_) == {key}
+            sink.append(('max-value', list(st.pc), z3.And(z3.BoolVal(ok),
+                                                          accepted),
+                         '%s(*s) returns a new function whose only nonlinear '
+                         'term is _minmax(%r, *s), in the list of its '
+                         'curvature, when _minmax accepts the arguments' % (
+                             fname, fname), 0))
+        return ex
+    try:
+        try:
+            for fname in ('max', 'min'):
+                for nargs in (1, 2, 3):
+                    ex = run(fname, nargs)
+        except Unsupported as e:
+            add('supported', 'max-refuses', 'undecided', 'max / min are '
+                'inside the supported subset', detail=str(e))
+            return obs
+    finally:
+        for k_, v_ in saved.items():
+            if v_ is None:
+                L.ext.pop(k_, None)
+            else:
+                L.ext[k_] = v_
+        L.setattr = saved_setattr
+    seen = {}
+    rank = {'proved': 0, 'undecided': 1, 'refuted': 2}
+    for kind, pc, goal, text, line in sink:
+        r = ex.check(pc, [z3.Not(goal)], timeout=timeout_ms)
+        st_ = 'proved' if r == z3.unsat else ('refuted' if r == z3.sat
+                                              else 'undecided')
+        key = (kind, text)
+        if key not in seen or rank[st_] > rank[seen[key][0]]:
+            seen[key] = (st_, line)
+    for i_, ((kind, text), (st_, line)) in enumerate(sorted(seen.items())):
+        add('%s#%d' % (kind, i_), kind, st_, text, line)
+    return obs
